@@ -26,7 +26,7 @@ ASSUMPTIONS = [
     "and the comparison uses 1e-8 instead of equality",
 ]
 DECIDING_MONITORS = ("Point2D.__init__:rational-checked", "operator-result:vertices-checked")
-CASE_TIMEOUT = 60
+CASE_TIMEOUT = 400
 SHARD_SIZE = 20
 
 
@@ -183,6 +183,10 @@ def crossing_points(ca, cb):
 
 
 def case(ctx):
+    if ctx.tier == "thorough" and ctx.index == 0:
+        from vf.checks.common import suite_case
+
+        return suite_case(ctx, ID)
     rng = ctx.rng
     big = rng.random() < 0.25
     numa = rng.choice(["int", "frac", "frac"])
